@@ -316,6 +316,55 @@ pub fn trace(args: &[String]) -> i32 {
     0
 }
 
+/// Uniform crossover of long parents: for every pair of positions (i, i+d) the set of decision
+/// pairs observed over `draws` children (coverage obligation PairsFree: all four must occur).
+pub fn pairs(args: &[String]) -> i32 {
+    let seed = arg_u64(args, "--seed", 0);
+    let draws = arg_u64(args, "--draws", 400);
+    let mut out = Out::create(arg_req(args, "--out"));
+    for form in FORMS {
+        for n in [65usize, 130, 193] {
+            let mut rng = run_rng(seed, 0x9A1, n as u64);
+            let (p1, p2): (Vec<i64>, Vec<i64>) = if form.starts_with("bits") {
+                (vec![0; n], vec![1; n])
+            } else {
+                ((1..=n as i64).collect(), (1..=n as i64).map(|k| 1000 + k).collect())
+            };
+            let mut masks: Vec<Vec<bool>> = Vec::new();
+            let mut other = 0u64;
+            for _ in 0..draws {
+                let r = crossover("uniform", form, &json!(p1), &json!(p2), &mut rng);
+                if r["k"] == "ok" && arr(&r["child"]).len() == n {
+                    masks.push(ints(&r["child"]).iter().zip(&p2).map(|(c, b)| c == b).collect());
+                } else {
+                    other += 1;
+                }
+            }
+            for d in [1usize, 2, 8, 16, 32, 64, 128] {
+                if d >= n {
+                    continue;
+                }
+                // the position pair with the fewest distinct decision pairs
+                let mut worst = (4usize, 0usize);
+                for i in 0..n - d {
+                    let mut seen = [false; 4];
+                    for m in &masks {
+                        seen[usize::from(m[i]) * 2 + usize::from(m[i + d])] = true;
+                    }
+                    let k = seen.iter().filter(|x| **x).count();
+                    if k < worst.0 {
+                        worst = (k, i);
+                    }
+                }
+                out.line(&json!({"form": form, "n": n, "d": d, "draws": draws, "not_ok": other,
+                                 "fewest_pairs": worst.0, "at": worst.1}));
+            }
+        }
+    }
+    out.finish();
+    0
+}
+
 /// Many two-point crossovers of tagged parents per length: the distinct children observed
 /// (coverage obligation "every segment can occur").
 pub fn segments(args: &[String]) -> i32 {
